@@ -354,10 +354,11 @@ class Event:
 
 
 class Path:
-    __slots__ = ("conds", "events", "ret", "end", "store", "end_bb", "blocks", "pre_loop")
+    __slots__ = ("conds", "events", "ret", "end", "store", "end_bb", "blocks", "pre_loop", "end_loop")
 
     def __init__(self, conds, events, ret, end, store, end_bb, blocks, pre_loop=None):
         self.pre_loop = pre_loop or {}
+        self.end_loop = None       # (frame id, header block) of the loop whose back edge ended the path
         self.conds = conds
         self.events = events
         self.ret = ret
@@ -368,11 +369,12 @@ class Path:
 
 
 class Frame:
-    __slots__ = ("body", "fid", "bb", "ret_dest", "ret_target", "cgen", "tgen", "loops", "loopw")
+    __slots__ = ("body", "fid", "bb", "ret_dest", "ret_target", "cgen", "tgen", "loops", "loopw", "uc")
 
     def __init__(self, body, fid, cgen, tgen):
         self.body = body
         self.fid = fid
+        self.uc = 0              # frame-local unroll_const (a small getter whose only loop runs over a constant array)
         self.bb = 0
         self.ret_dest = None
         self.ret_target = None
@@ -395,6 +397,7 @@ class State:
             g.bb = f.bb
             g.ret_dest = f.ret_dest
             g.ret_target = f.ret_target
+            g.uc = f.uc
             s.frames.append(g)
         s.active = set(self.active)
         s.decided = dict(self.decided)
@@ -738,9 +741,27 @@ class SymExec:
             return False
         loops, _ = self.loops_of(b)
         if loops and not self.unroll:
-            return False
+            # a small function whose loops all run over a constant array of one or two elements (`Color::ALL.iter()
+            # .fold(..)`) is a straight line once those are executed element by element
+            return self.const_loop_fn(name)
         # no closure-typed generics
         return True
+
+    def const_loop_fn(self, name):
+        cache = self.facts.__dict__.setdefault("_const_loop_fn", {})
+        if name not in cache:
+            cache[name] = False          # (recursion guard)
+            b = self.facts.bodies[name]
+            ok = False
+            if not any("&mut" in b.locals[i]["ty"] for i in range(1, b.argc + 1)):
+                try:
+                    sub = SymExec(self.facts, b, max_paths=64, max_depth=2, unroll_const=2, opaque=self.opaque_pred)
+                    ps = sub.run()
+                    ok = bool(ps) and all(p.end == "return" and not p.pre_loop for p in ps)
+                except Exception:
+                    ok = False
+            cache[name] = ok
+        return cache[name]
 
     # ---------------------------------------------------------------- run
     def run(self):
@@ -785,17 +806,27 @@ class SymExec:
         the element it took and nothing else touches v) visits each member of v's initial value once, like `for x in v`:
         such loops are re-expressed in the terms the engine uses for iteration (`next(S)`, `elem(S)`)."""
         NS = BB + "::next_square"
-        b = self.body
         cands = {}
         for p in self.paths:
             for (fid, hdr), snap in p.pre_loop.items():
-                if fid != 0:
-                    continue
+                fnk = snap.get(("_fn", ()))
+                bkey = fnk[1] if fnk else self.body.key
                 for (lname, path), oldv in snap.items():
                     if path or lname.startswith("_") or lname.startswith("*") or oldv is None:
                         continue
-                    cands.setdefault((hdr, lname), oldv)
-        for (hdr, lname), S0 in cands.items():
+                    cands.setdefault((bkey, hdr, lname), oldv)
+
+        def fid_of(p, bkey, hdr):
+            """the frame of path p in which the loop (bkey, hdr) runs (loops of inlined callees included)"""
+            for (fid, h2), snap in p.pre_loop.items():
+                fnk = snap.get(("_fn", ()))
+                if h2 == hdr and (fnk[1] if fnk else self.body.key) == bkey:
+                    return fid
+            return None
+        for (bkey, hdr, lname), _S0 in cands.items():
+            b = self.facts.bodies.get(bkey)
+            if b is None:
+                continue
             H = ("hv", b.key.rsplit("::", 1)[-1], lname, hdr)
             ns = ("call", NS, (H,))
             X = ("field", ("downcast", ns, "Some"), "0")
@@ -803,29 +834,37 @@ class SymExec:
             idx = [i for i in range(len(b.locals)) if b.local_name(i) == lname]
             if len(idx) != 1:
                 continue
-            back = [p for p in self.paths if p.end == "loopback" and p.end_bb == hdr and (0, hdr) in p.pre_loop]
-            if not back or not all(p.store.get(("L", 0, idx[0])) in removed for p in back):
-                continue
-            if not all(any(c[0] == ("discr", ns) and c[1] == 1 for c in p.conds) for p in back):
-                continue
-            memo = {}
-
-            def sub(e):
-                if not isinstance(e, tuple):
-                    return e
-                r = memo.get(e)
-                if r is None:
-                    if e == X:
-                        r = ("elem", S0)
-                    elif e == ns:
-                        r = ("next", S0)
-                    else:
-                        r = tuple(sub(x) for x in e)
-                    memo[e] = r
-                return r
+            back = []
             for p in self.paths:
-                if (0, hdr) not in p.pre_loop:
+                fid = fid_of(p, bkey, hdr)
+                if fid is not None and p.end == "loopback" and (p.end_loop == (fid, hdr) or (p.end_loop is None and fid == 0 and p.end_bb == hdr)):
+                    back.append((p, fid))
+            if not back or not all(p.store.get(("L", fid, idx[0])) in removed for p, fid in back):
+                continue
+            if not all(any(c[0] == ("discr", ns) and c[1] == 1 for c in p.conds) for p, fid in back):
+                continue
+            for p in self.paths:
+                fid = fid_of(p, bkey, hdr)
+                if fid is None:
                     continue
+                S0 = p.pre_loop[(fid, hdr)].get((lname, ()))
+                if S0 is None:
+                    continue
+                memo = {}
+
+                def sub(e):
+                    if not isinstance(e, tuple):
+                        return e
+                    r = memo.get(e)
+                    if r is None:
+                        if e == X:
+                            r = ("elem", S0)
+                        elif e == ns:
+                            r = ("next", S0)
+                        else:
+                            r = tuple(sub(x) for x in e)
+                        memo[e] = r
+                    return r
                 p.conds = [(sub(c[0]),) + tuple(c[1:]) for c in p.conds]
                 p.ret = sub(p.ret) if p.ret is not None else None
                 for e in p.events:
@@ -834,7 +873,7 @@ class SymExec:
                     if e.ret is not None:
                         e.ret = sub(e.ret)
                 for root in list(p.store):
-                    if root != ("L", 0, idx[0]):
+                    if root != ("L", fid, idx[0]):
                         p.store[root] = sub(p.store[root])
                     elif p.store[root] in removed:
                         p.store[root] = H          # the drained set plays the part of the iterator: not an effect of the body
@@ -842,6 +881,8 @@ class SymExec:
     def finish(self, st, end, ret=None):
         self.paths.append(Path(st.conds, st.events, ret, end, st.store, st.frames[0].bb if st.frames else -1,
                                st.blocks, st.pre_loop))
+        if end == "loopback":
+            self.paths[-1].end_loop = st.decided.get(("ended-at",))
 
     # ---------------------------------------------------------------- places
     def local_val(self, st, fr, l):
@@ -1115,6 +1156,7 @@ class SymExec:
                     st.active.add(pk)
                     return True
             if key in st.active:
+                st.decided[("ended-at",)] = key
                 return False
             st.active.add(key)
             locs, mem = loopw[bb]
@@ -1506,6 +1548,10 @@ class SymExec:
             cv = args[0]
             if cv[0] in ("ptr", "ref"):
                 cv = self.deref(st, cv)
+            if cv[0] == "fn":
+                # `f(x)` where f holds a function item
+                callee = {"fn": cv[1], "targs": list(cv[2]), "res": cv[1], "rargs": list(cv[2])}
+                args = tuple(args[1][1])
             if cv[0] == "closure" and cv[1] in self.facts.bodies:
                 direct = cv
                 if args[0][0] != "ptr":
@@ -1539,9 +1585,14 @@ class SymExec:
                     self.finish(st, "loopback")
                     return "end"
                 return "cont"
-            # unknown callable (a generic parameter): same shape as a call through FnMut
-            callee = {"fn": "core::ops::function::FnMut::call_mut", "targs": []}
-            args = (args[0], ("tuple", tuple(args[1:])))
+            if cv[0] == "fn":
+                # a function item used as the callable (`opt.map(Self::key_of)`): a plain call of that function
+                callee = {"fn": cv[1], "targs": list(cv[2]), "res": cv[1], "rargs": list(cv[2])}
+                args = tuple(args[1:])
+            else:
+                # unknown callable (a generic parameter): same shape as a call through FnMut
+                callee = {"fn": "core::ops::function::FnMut::call_mut", "targs": []}
+                args = (args[0], ("tuple", tuple(args[1:])))
         if "fn" not in callee:
             fv = self.operand(st, fr, callee["indirect"])
             val = ("callind", fv, args)
@@ -1562,6 +1613,8 @@ class SymExec:
             elif self.should_inline(name, sum(1 for fr_ in st.frames[1:] if fr_.body.kind != "Closure")):
                 body = self.facts.bodies[name]
                 nf = Frame(body, st.nfid, self.sub_cgen(fr, body, targs), self.sub_tgen(fr, body, targs))
+                if not self.unroll and self.loops_of(body)[0] and self.const_loop_fn(name):
+                    nf.uc = 2            # a constant-array loop, executed element by element
                 st.nfid += 1
                 nf.ret_dest = t["dest"]
                 nf.ret_target = t["t"]
@@ -1945,7 +1998,7 @@ class SymExec:
                 # a local array with known elements, iterated by reference
                 return ("iter", ("array", tuple(("ref", e) for e in v[1])))
             if a[0] == "ref":
-                if self.unroll_const and a[1][0] == "array" and len(a[1][1]) <= self.unroll_const:
+                if (self.unroll_const or fr.uc) and a[1][0] == "array" and len(a[1][1]) <= (self.unroll_const or fr.uc):
                     return ("iter", ("array", tuple(("ref", e) for e in a[1][1])))
                 return ("iter", a)        # `X.iter()` on a constant array reads like `for x in &X`
         if name == "core::iter::traits::iterator::Iterator::rev" and len(args) == 1 and args[0][0] == "iter":
@@ -1961,7 +2014,7 @@ class SymExec:
             a = args[0]
             if a[0] in ("iter", "iter*"):
                 return a
-            if self.unroll_const and a[0] == "ref" and a[1][0] == "array" and len(a[1][1]) <= self.unroll_const:
+            if (self.unroll_const or fr.uc) and a[0] == "ref" and a[1][0] == "array" and len(a[1][1]) <= (self.unroll_const or fr.uc):
                 return ("iter", ("array", tuple(("ref", e) for e in a[1][1])))
             if a[0] == "ptr" and a[1][0] == "L" and not a[2] and not a[3]:
                 v = self.deref(st, a)
